@@ -294,6 +294,24 @@ def _agnostic(check: Check):
     ok_w = any(isinstance(x, ast.Call) and wmean.repo_fn(sff, x) == f'{modname}:update_domain_weights' for x in sff.expand(b['domain_weights'])) if b.get(
         'domain_weights') is not None else False
     okf = ok_po and ok_w
+  # what apply hands over as this round's per-domain counts is the plain sum of the clients' counts: a count that is floored, clamped
+  # or defaulted makes the window remember examples that were never seen
+  ap = repo.func(modname, 'agnostic_federated_averaging').nested('apply')
+  aff = FuncFlow.of(repo, ap)
+  for _, c in aff.calls():
+    if wmean.repo_fn(aff, c) == f'{modname}:agnostic_federated_averaging.server_update' or (isinstance(c.func, ast.Name) and c.func.id == 'server_update'):
+      from fjsa.flow import bound_args
+      ba = bound_args(aff, c) or {}
+      a = ba.get('sum_domain_num')
+      if a is None and len(c.args) >= 4:
+        a = c.args[3]
+      if a is not None:
+        vals = aff.expand(a)
+        raw = bool(vals) and all(isinstance(v, ast.Call) and wmean.repo_fn(aff, v) in wmean.SUM for v in vals)
+        clamp = any(isinstance(v, ast.Call) and (aff.ext(v.func) or '').split('.')[-1] in ('maximum', 'minimum', 'clip', 'where', 'max', 'min')
+                    for v in vals)
+        check.ob('R-SIMPLEX.window-raw', ap, txt(a)[:70], True if raw else (False if clamp else None),
+                 'the per-domain counts that enter the window are the unmodified sum over the clients', node=c)
   check.ob('R-SIMPLEX.window', su, 'window[1:] + [sum_domain_num]', okw,
            'the window keeps its length: the oldest entry is dropped and this round\'s per-domain counts are appended last')
   check.ob('R-SIMPLEX.window', su, 'ServerState(params, opt_state, domain_weights, domain_window)', okf,
